@@ -346,6 +346,10 @@ package iscp
 //@   after call (*sync.RWMutex).Lock: consulted = true
 //@   loop 1 invariant consulted   // every reply call is looked up in the reply table before the next message is taken
 //@   assert send: imp(replyKeyed(ch), cap(ch) >= 1)   // the registered reply channel has a free slot
+// the copy into the shared ReceiveReplyCall / ReceiveCall inboxes never waits for an application that
+// does not drain them: the single dispatcher would stall before it reaches the registered waiter
+//@   assert[C16] send replyCallCh: nonblocking
+//@   assert[C16] send downstreamCallCh: nonblocking
 
 // ---------------------------------------------------------------- C20: flush policies
 //@ func (*flushPolicyNone).IsFlush
@@ -353,6 +357,16 @@ package iscp
 //@   nopanic
 //@   modifies nothing
 //@   ensures !result
+// Each run of a flush loop gets a ticker of its own: the policy object behind the default upstream
+// configuration is shared by every stream opened without a flush-policy option, so a ticker kept in
+// the policy would be stopped for all of them by the first stream that closes (C07) and the
+// interval flush of the others would end (C20)
+//@ func (*flushPolicyIntervalOnly).Ticker
+//@   props C07 C20
+//@   modifies nothing
+//@   ghostvar made bool = false
+//@   after call time.NewTicker: made = true
+//@   ensures made
 //@ func (*flushPolicyIntervalOnly).IsFlush
 //@   props C20
 //@   nopanic
@@ -866,7 +880,9 @@ package iscp
 //@   ghostvar wakeOnTimeout bool = false
 //@   after call context.AfterFunc: wakeOnCtx = wakeOnCtx || arg0 == ctx
 //@   after call context.AfterFunc: wakeOnTimeout = wakeOnTimeout || arg0 == parentCtx
-//@   assert[C08] call Cond).Wait: wakeOnCtx && wakeOnTimeout
+//@   ghostvar released int = 0
+//@   after unlock L: released = released + 1
+//@   assert[C08] call Cond).Wait: wakeOnCtx && wakeOnTimeout && released == 0   // ... and receivedAck.L has not been let go since the loop looked at its bounds (the wake-ups take that lock: one that fires while it is free finds nobody waiting)
 //@   loop 1 invariant[C08] wakeOnCtx && wakeOnTimeout
 // ... and a wake-up for a bound must not fall between the loop's look at the bound and its Wait:
 // the drain loop holds receivedAck.L from the look to the Wait, so whoever wakes it takes that lock
